@@ -196,8 +196,8 @@ Proof.
     pose proof (strms_del_not_In _ _ _ sim_nodup0 Hs) as Hne. apply strms_del_In in Hs.
     apply sim_strm0; [assumption|]. destruct Hex as [->| ->]; [discriminate | congruence].
   - rewrite sc_strms_close_stream. apply strms_del_NoDup. assumption.
-  - rewrite sc_strms_close_stream, f_lastID. intros s0 Hs. apply strms_del_In in Hs. auto.
-  - rewrite f_lastID. flia.
+  - rewrite sc_strms_close_stream, sc_lastID_close_stream. intros s0 Hs. apply strms_del_In in Hs. auto.
+  - rewrite sc_lastID_close_stream. flia.
   - intros sid w H. apply sim_fresh0. flia.
 Qed.
 
